@@ -1,11 +1,13 @@
 ---- MODULE MCElementsHist ----
 EXTENDS ElementsHist
-C(m, n, k) == [m |-> m, n |-> n, k |-> k]
+C(m, n, k) == [m |-> m, n |-> n, k |-> k, t |-> "0.01"]
+CT(m, n, t) == [m |-> m, n |-> n, k |-> 0, t |-> t]
+Close == {"Co", "Ni", "Ar", "Ca", "K", "Te", "I"}   \* neighbours in mass: 58.93/58.69, 39.95/40.08, 39.10, 127.6/126.9
 MissLookups == {"getMass", "getNucCrg", "getEleNum", "getEleFull", "getEleShort", "getVdWChelpG", "getVdWMK",
                 "getPolarizability"}
 Members == {"isEleShort", "isEleFull", "isElement"}
 \* quick: one non-element name, one element, the boundary masses around 0, C and between C and N
-QKnown == {"C", "N", "6"}
+QKnown == {"C", "N", "6"} \cup Close
 QUnknown == {"CH3", "999"}
 QFull == {"CARBON"}
 TFull == {"CARBON", "LEAD", "HYDROGEN"}
@@ -16,12 +18,16 @@ QCalls == {C(m, "CH3", 0) : m \in MissLookups \cup Members}
                 \* which call came first
                 C("isEleShort", "C", 0), C("isElement", "C", 0), C("isEleFull", "CARBON", 0),
                 C("getEleShort", "CARBON", 0), C("isElement", "CARBON", 0)}
+          \* reverse look-ups with LARGE tolerances on elements that are neighbours in mass
+          \cup {CT("getEleShortClosestInMass", b, "0.5") : b \in {"Co", "Ni", "Ar", "Ca"}}
+          \cup {CT("getEleShortClosestInMass", b, "2") : b \in {"K", "Te", "I"}}
+          \cup {CT("isMassAssociatedWithElement", "Ni", "0.5")}
           \cup {C("getEleShortClosestInMass", "zero", 0), C("getEleShortClosestInMass", "zero", 1),
                 C("getEleShortClosestInMass", "C", 1), C("getEleShortClosestInMass", "C", 3),
                 C("getEleShortClosestInMass", "mid", 0),
                 C("isMassAssociatedWithElement", "zero", 1), C("isMassAssociatedWithElement", "C", -1)}
 \* thorough (simulation): more names, every lookup on every name, all boundary offsets
-TKnown == {"C", "N", "H", "Pb", "6", "82"}
+TKnown == {"C", "N", "H", "Pb", "6", "82"} \cup Close
 TUnknown == {"CH3", "Xx", "c", "999", "0"}
 TNames == {"C", "H", "Pb", "CH3", "Xx", "c"}
 TCalls == {C(m, n, 0) : m \in MissLookups \cup Members, n \in TNames}
@@ -30,4 +36,5 @@ TCalls == {C(m, n, 0) : m \in MissLookups \cup Members, n \in TNames}
           \cup {C(m, n, 0) : m \in {"getCovRadAng", "getCovRadBohr", "getCovRadNm", "getCovRadBadUnit"}, n \in {"C", "H", "Pb"}}
           \cup {C(m, b, k) : m \in MassCalls, b \in {"zero", "C", "H", "Pb"}, k \in {-3, -2, -1, 0, 1, 2, 3}}
           \cup {C(m, "mid", 0) : m \in MassCalls}
+          \cup {CT(m, b, t) : m \in MassCalls, b \in Close, t \in {"0.01", "0.5", "2"}}
 ====
